@@ -19,7 +19,7 @@ ASSUMPTIONS = ["SVD-compressed outputs: the smaller-than-rank regime is generate
                "integer random_state for every randomised estimator"]
 
 
-def rows_equal(np, a, b, exact, rtol, atol):
+def rows_equal(np, a, b, exact, rtol, atol, equal_nan=False):
     if len(a) != len(b):
         return "row counts %d vs %d" % (len(a), len(b))
     for i, (x, y) in enumerate(zip(a, b)):
@@ -30,7 +30,7 @@ def rows_equal(np, a, b, exact, rtol, atol):
         x, y = np.asarray(x), np.asarray(y)
         if x.shape != y.shape:
             return "item %d: shapes %s vs %s" % (i, x.shape, y.shape)
-        ok = np.array_equal(x, y) if exact else np.allclose(x, y, rtol=rtol, atol=atol, equal_nan=False)
+        ok = np.array_equal(x, y, equal_nan=equal_nan) if exact else np.allclose(x, y, rtol=rtol, atol=atol, equal_nan=equal_nan)
         if not ok:
             j = int(np.argmax(np.abs(np.nan_to_num(x - y)))) if x.size else 0
             return "item %d: max difference at flat index %d: %r vs %r" % (i, j, x.ravel()[j] if x.size else None, y.ravel()[j] if y.size else None)
